@@ -26,27 +26,29 @@ Img(kind, x) ==
   CASE kind \in {"sign1", "sign1u"} ->
          (CASE x = "A" -> ImageOf(kind, [P |-> <<Alg>>, U |-> <<Kid(49)>>, payload |-> <<1, 2>>, sig |-> <<170, 187>>])
             [] x = "B" -> ImageOf(kind, [P |-> <<>>, U |-> <<<<GoInt("int64", 11), [t |-> "csigs", xs |-> <<Cs, Cs2>>]>>, <<GoInt("int64", 5), GoBytes(<<7>>)>>>>, payload |-> NilPayload, sig |-> <<1>>])
+            [] x = "Z" -> ImageOf(kind, [P |-> <<>>, U |-> <<>>, payload |-> <<>>, sig |-> <<1>>])
             [] x = "E" -> <<0>> \o ImageOf(kind, [P |-> <<Alg>>, U |-> <<>>, payload |-> <<1>>, sig |-> <<1>>])
             [] x = "M" -> ImageOf(kind, [P |-> <<Alg>>, U |-> <<BadKid>>, payload |-> <<3>>, sig |-> <<4>>])
             [] x = "L" -> ImageOf(kind, [P |-> SigClash.P, U |-> SigClash.U, payload |-> <<3>>, sig |-> <<4>>]))
     [] kind = "sign" ->
          (CASE x = "A" -> ImageOf(kind, [P |-> <<Alg>>, U |-> <<>>, payload |-> <<1, 2>>, sigs |-> <<SigA>>])
             [] x = "B" -> ImageOf(kind, [P |-> <<>>, U |-> <<Kid(51)>>, payload |-> NilPayload, sigs |-> <<SigB, SigA, SigB>>])
+            [] x = "Z" -> ImageOf(kind, [P |-> <<>>, U |-> <<>>, payload |-> <<>>, sigs |-> <<[P |-> <<>>, U |-> <<>>, sig |-> <<1>>]>>])
             [] x = "E" -> <<216>> \o ImageOf(kind, [P |-> <<>>, U |-> <<>>, payload |-> <<1>>, sigs |-> <<SigA>>])
             [] x = "M" -> ImageOf(kind, [P |-> <<>>, U |-> <<BadKid>>, payload |-> <<1>>, sigs |-> <<SigA>>])
             [] x = "L" -> ImageOf(kind, [P |-> <<Kid(52)>>, U |-> <<>>, payload |-> <<8>>, sigs |-> <<SigB, SigB, SigBad>>]))
     [] kind \in {"sig", "csig"} ->
-         (CASE x = "A" -> ImageOf(kind, SigA) [] x = "B" -> ImageOf(kind, SigB) [] x = "E" -> <<132>> \o ImageOf(kind, SigA)
+         (CASE x = "A" -> ImageOf(kind, SigA) [] x = "B" -> ImageOf(kind, SigB) [] x = "Z" -> ImageOf(kind, [P |-> <<>>, U |-> <<>>, sig |-> <<1>>]) [] x = "E" -> <<132>> \o ImageOf(kind, SigA)
             [] x = "M" -> ImageOf(kind, SigBad) [] x = "L" -> ImageOf(kind, SigClash))
     [] kind = "prot" ->
          (CASE x = "A" -> ImageOf(kind, [P |-> <<Alg>>, U |-> <<>>]) [] x = "B" -> ImageOf(kind, [P |-> <<Kid(49), <<GoInt("int64", 3), GoStr(<<97, 47, 98>>)>>>>, U |-> <<>>])
-            [] x = "E" -> <<160>> [] x = "M" -> ImageOf(kind, [P |-> <<Alg, BadKid>>, U |-> <<>>]) [] x = "L" -> ImageOf(kind, [P |-> <<Alg, <<GoInt("int64", 2), [t |-> "arr", xs |-> <<GoInt("int64", 9)>>]>>>>, U |-> <<>>]))
+            [] x = "Z" -> <<64>> [] x = "E" -> <<160>> [] x = "M" -> ImageOf(kind, [P |-> <<Alg, BadKid>>, U |-> <<>>]) [] x = "L" -> ImageOf(kind, [P |-> <<Alg, <<GoInt("int64", 2), [t |-> "arr", xs |-> <<GoInt("int64", 9)>>]>>>>, U |-> <<>>]))
     [] kind = "unprot" ->
          (CASE x = "A" -> ImageOf(kind, [P |-> <<>>, U |-> <<Kid(49)>>]) [] x = "B" -> ImageOf(kind, [P |-> <<>>, U |-> <<<<GoInt("int64", 7), [t |-> "csig", x |-> Cs]>>, <<GoStr(<<120>>), GoInt("int64", 1)>>>>])
-            [] x = "E" -> <<64>> [] x = "M" -> ImageOf(kind, [P |-> <<>>, U |-> <<BadKid>>]) [] x = "L" -> ImageOf(kind, [P |-> <<>>, U |-> <<Kid(1), <<GoInt("int64", 2), [t |-> "arr", xs |-> <<GoInt("int64", 4)>>]>>>>]))
+            [] x = "Z" -> <<160>> [] x = "E" -> <<64>> [] x = "M" -> ImageOf(kind, [P |-> <<>>, U |-> <<BadKid>>]) [] x = "L" -> ImageOf(kind, [P |-> <<>>, U |-> <<Kid(1), <<GoInt("int64", 2), [t |-> "arr", xs |-> <<GoInt("int64", 4)>>]>>>>]))
 
-Ops == {"A", "B", "E", "M", "L", "si", "m", "so", "o"}       \* "o": decode another message into ANOTHER variable, then look at this one
-IsDec(o) == o \in {"A", "B", "E", "M", "L"}
+Ops == {"A", "B", "Z", "E", "M", "L", "si", "m", "so", "o"}       \* "o": decode another message into ANOTHER variable, then look at this one
+IsDec(o) == o \in {"A", "B", "Z", "E", "M", "L"}      \* Z: the emptiest valid value (empty buckets, empty payload)
 BufIn(i) == "in" \o ToString(i)
 BufOut(i) == "out" \o ToString(i)
 RECURSIVE Build(_, _, _, _, _)
